@@ -284,10 +284,12 @@ def build_odf(m):
                 z.writestr(zipfile.ZipInfo(n), data, compress_type=zipfile.ZIP_DEFLATED)
         for n, data in extra_files.items():
             z.writestr(zipfile.ZipInfo(n), data, compress_type=zipfile.ZIP_STORED)
-        z.writestr(zipfile.ZipInfo("META-INF/manifest.xml"), "".join(parts).encode("utf-8"), compress_type=zipfile.ZIP_DEFLATED)
+        enc = m.get("encoding", "utf-8")      # any encoding an XML parser must accept: UTF-8 (with or without BOM) or UTF-16 with BOM
+        mtext = "".join(parts).replace('encoding="UTF-8"', f'encoding="{"UTF-16" if enc == "utf-16" else "UTF-8"}"', 1)
+        z.writestr(zipfile.ZipInfo("META-INF/manifest.xml"), mtext.encode(enc), compress_type=zipfile.ZIP_DEFLATED)
     truth = "encrypted" if marked else "plain"
     trig = any(d not in ("benign-picture",) for d in m["decoys"])
-    nontrivial = (truth == "plain" and trig) or (truth == "encrypted" and (pfx != "manifest" or "content.xml" not in marked))
+    nontrivial = (truth == "plain" and trig) or (truth == "encrypted" and (pfx != "manifest" or "content.xml" not in marked or m.get("encoding", "utf-8") != "utf-8"))
     return buf.getvalue(), ext, truth, nontrivial
 
 
@@ -548,7 +550,8 @@ def _cases():
                                    "dataspaces": st.booleans(), "seed": st.integers(0, 9)})
     odf = st.fixed_dictionaries({"mech": st.just("odf"), "ext": st.sampled_from(sorted(ODF_BASES)), "base": st.integers(0, 1),
                                  "enc": st.one_of(st.just([]), st.lists(st.integers(0, 5), min_size=1, max_size=3)), "content_always": st.booleans(),
-                                 "prefix": st.sampled_from(["manifest", "manifest", "m", ""]), "decoys": st.lists(st.sampled_from(ODF_DECOYS), unique=True, max_size=3)})
+                                 "prefix": st.sampled_from(["manifest", "manifest", "m", ""]), "decoys": st.lists(st.sampled_from(ODF_DECOYS), unique=True, max_size=3),
+                                 "encoding": st.sampled_from(["utf-8", "utf-8", "utf-8", "utf-8-sig", "utf-16", "utf-16"])})
     cell = st.one_of(st.none(), _tok(), st.sampled_from(["/", "a/b", "//", 47, 47.0, 12079, 0.5, True]), st.integers(-5, 300))
     sheet = st.fixed_dictionaries({"name": st.sampled_from(["S1", "Data", "a b", "FILEPASS", "Sheet/2".replace("/", "-")]), "rows": st.lists(st.lists(cell, min_size=1, max_size=4), min_size=0, max_size=4)})
     xls = st.fixed_dictionaries({"mech": st.just("xls"), "sheets": st.lists(sheet, min_size=1, max_size=3, unique_by=lambda s: s["name"].lower()),
